@@ -120,6 +120,8 @@ pub struct World {
     pub allow_glob_named: bool,
     /// allow imports through a crate that merely re-exports the type (`use facade::Name;`)
     pub allow_reexport: bool,
+    /// one source file is also reachable through a relative symlink in another crate
+    pub symlinks: bool,
 }
 
 const PRIMS: [&str; 9] = ["String", "u32", "i32", "bool", "f64", "u8", "i16", "u16", "f32"];
@@ -128,7 +130,7 @@ const NAMES: [&str; 24] = [
     "Ledger", "Member", "Note", "Order", "Policy", "Quota", "Record", "Session", "Token", "Unit", "Vault", "Widget",
     "Zone",
 ];
-const CRATES: [&str; 6] = ["alpha", "beta-core", "gamma", "delta_x", "eps-i-lon", "codable"];
+const CRATES: [&str; 7] = ["alpha", "beta-core", "gamma", "delta_x", "eps-i-lon", "codable", "alpha-ext"];
 const FILES: [&str; 7] =
     ["src/lib.rs", "src/model.rs", "src/api/mod.rs", "src/api/types.rs", "src/api/v2/wire.rs", "src/util.rs", "src/z.rs"];
 const FIELD_NAMES: [&str; 10] =
@@ -141,6 +143,9 @@ pub struct GenOpts {
     pub max_items: usize,
     pub consts: bool,
     pub same_names: bool,
+    /// reuse a type name only in a crate other than the one(s) defining it (legitimate in
+    /// multi-file mode, where every crate has its own output file)
+    pub same_names_other_crate: bool,
     pub unit_fields: bool,
     pub renames: bool,
     pub glob_named: bool,
@@ -148,6 +153,7 @@ pub struct GenOpts {
     pub decorators: bool,
     pub specials: bool,
     pub reexports: bool,
+    pub symlinks: bool,
 }
 
 impl Default for GenOpts {
@@ -158,6 +164,7 @@ impl Default for GenOpts {
             max_items: 14,
             consts: true,
             same_names: false,
+            same_names_other_crate: false,
             unit_fields: true,
             renames: true,
             glob_named: true,
@@ -165,6 +172,7 @@ impl Default for GenOpts {
             decorators: true,
             specials: true,
             reexports: false,
+            symlinks: false,
         }
     }
 }
@@ -260,6 +268,12 @@ pub fn gen_world(r: &mut Rng, o: &GenOpts) -> World {
         }
         if o.same_names && !names.is_empty() && r.chance(1, 8) && kind != Kind::Const {
             name = r.pick(&names).clone();
+        } else if o.same_names_other_crate && !names.is_empty() && r.chance(1, 6) && kind != Kind::Const {
+            let cand = r.pick(&names).clone();
+            let clash = items.iter().any(|it: &GItem| it.name == cand && it.crate_ix == crate_ix);
+            if !clash {
+                name = cand;
+            }
         }
         let nf = match kind {
             Kind::Struct => r.range(0, 4) as usize,
@@ -370,7 +384,7 @@ pub fn gen_world(r: &mut Rng, o: &GenOpts) -> World {
         }
         items.push(it);
     }
-    World { crates, items, noise: r.chance(1, 2), style: r.next(), allow_glob_named: o.glob_named, allow_reexport: o.reexports }
+    World { crates, items, noise: r.chance(1, 2), style: r.next(), allow_glob_named: o.glob_named, allow_reexport: o.reexports, symlinks: o.symlinks }
 }
 
 pub fn render_item(it: &GItem) -> String {
@@ -528,6 +542,12 @@ impl World {
                     };
                     chunks.push(line);
                 }
+                // imports that no typeshared type of this file refers to (real files have plenty)
+                if self.crates.len() > 1 && fr.chance(1, 6) {
+                    let oc = (ci + 1 + fr.below(self.crates.len() as u64 - 1) as usize) % self.crates.len();
+                    let cn = crate_name_of(&self.crates[oc].dir);
+                    chunks.push(if fr.chance(1, 2) { format!("use {cn}::*;\n") } else { format!("use {cn}::{{Unrelated, helper_fn}};\n") });
+                }
                 for it in items {
                     chunks.push(render_item(it));
                 }
@@ -550,6 +570,17 @@ impl World {
             ));
             tree.push(SrcFile::text(&format!("{}/src/notes.txt", self.crates[0].dir), vec!["#[typeshare] not rust\n".into()]));
             tree.push(SrcFile::text(&format!("{}/src/plain.rs", self.crates[0].dir), vec!["pub fn nothing_shared() {}\n".into()]));
+        }
+        // a source file shared between two crates through a relative symlink
+        if self.symlinks && self.crates.len() > 1 {
+            let mut lr = Rng::new(self.style ^ 0x51AB);
+            let from = lr.below(self.crates.len() as u64) as usize;
+            let to = (from + 1 + lr.below(self.crates.len() as u64 - 1) as usize) % self.crates.len();
+            let target = format!("{}/{}", self.crates[from].dir, self.crates[from].files[0]);
+            let link = format!("{}/src/shared_link.rs", self.crates[to].dir);
+            if !tree.iter().any(|f| f.path == link) {
+                tree.push(SrcFile { path: link, kind: FileKind::SymlinkToFile, chunks: vec![target], raw_hex: String::new() });
+            }
         }
         tree.sort_by(|a, b| a.path.cmp(&b.path));
         tree
